@@ -134,6 +134,18 @@ Example C11_unserved_resend_not_stuck :
 Proof. exact unserved_resend_not_stuck. Qed.
 Print Assumptions C11_unserved_resend_not_stuck.
 
+(* regression for the amended repair R3b: the peer's Logout is processed (on_logout, one on_disconnect, dead)
+   even when journaling it raises: duplicate inbound key after SequenceReset(34=2,36=2); MsgSeqNum "2"+NEL *)
+Example C11_logout_always_processed :
+  (let h := [i_logon 1; i_reset 2 2; i_logout 2] in
+   dead (final cfg0 w_acceptor h) /\ logouts_seen (trace (run cfg0 w_acceptor h)) = 1%nat
+   /\ length (discs (trace (run cfg0 w_acceptor h))) = 1%nat)
+  /\ (let h := [i_logon 1; i_logout_text [50%N; 133%N]] in
+      dead (final cfg0 w_acceptor h) /\ logouts_seen (trace (run cfg0 w_acceptor h)) = 1%nat
+      /\ length (discs (trace (run cfg0 w_acceptor h))) = 1%nat).
+Proof. exact logout_always_processed. Qed.
+Print Assumptions C11_logout_always_processed.
+
 (* D15: initiator, Logon sent, no reply yet: an application message is handed to on_message *)
 Theorem C11_initiator_app_before_logon_refuted :
   exists c w h m, prelogon w /\ apps (trace (run c w h)) = [m] /\ logons (trace (run c w h)) = [].
